@@ -27,64 +27,73 @@ def misfit(arg):
 BAD = {'Echo': ['r', 'not a struct'], 'Words': 7, 'Pair': ('only-one',), 'Table': 'not an array'}
 
 
+IFACE = interface.DBusInterface('org.ex.Echo', interface.Method('Echo', arguments='sa{sv}', returns='s(is)'),
+                                interface.Method('Words', arguments='sa{sv}', returns='as'),
+                                interface.Method('Pair', arguments='sa{sv}', returns='(ss)'),
+                                interface.Method('Table', arguments='sa{sv}', returns='a(si)'), noRegister=True)
+
+OTHER = interface.DBusInterface('org.ex.Other', interface.Method('Pair', arguments='sa{sv}', returns='(ss)'),
+                                interface.Method('Words', arguments='sa{sv}', returns='as'), noRegister=True)
+
+
+class Srv(objects.DBusObject):
+    """ONE class for the exported object and for the decoys other clients export at the same path: what a call
+    runs and logs must be the instance it was addressed to."""
+    # the same members are also declared on an interface listed FIRST: a call that names
+    # org.ex.Echo must still reach the org.ex.Echo implementation
+    dbusInterfaces = [OTHER, IFACE]
+
+    def __init__(self, path, raises, log):
+        objects.DBusObject.__init__(self, path)
+        self.raises = raises
+        self.log = log
+
+    @objects.dbusMethod('org.ex.Other', 'Pair')
+    def other_pair(self, s, extra):
+        self.log.append(('OTHER', s))
+        return ('other', 'x')
+
+    @objects.dbusMethod('org.ex.Other', 'Words')
+    def other_words(self, s, extra):
+        self.log.append(('OTHER', s))
+        return ['other']
+
+    def _bad(self, s, name):
+        if s in self.raises:
+            if misfit(s):
+                return True
+            raise SrvError('boom:' + s)
+        return False
+
+    def dbus_Echo(self, s, extra):
+        self.log.append((s, extra))
+        if self._bad(s, 'Echo'):
+            return BAD['Echo']
+        return ['r:' + s, (len(extra), 'é' + s)]
+
+    @objects.dbusMethod('org.ex.Echo', 'Words')
+    def echo_words(self, s, extra):           # one array, holding exactly one element
+        self.log.append((s, extra))
+        if self._bad(s, 'Words'):
+            return BAD['Words']
+        return ['w:' + s]
+
+    def dbus_Table(self, s, extra):           # one value that is not a struct but holds structs
+        self.log.append((s, extra))
+        if self._bad(s, 'Table'):
+            return BAD['Table']
+        return [('t:' + s, 1), ('u', 2)]
+
+    @objects.dbusMethod('org.ex.Echo', 'Pair')
+    def echo_pair(self, s, extra):            # one struct
+        self.log.append((s, extra))
+        if self._bad(s, 'Pair'):
+            return BAD['Pair']
+        return ('p:' + s, 'q')
+
+
 def build_object(raises, log):
-    iface = interface.DBusInterface('org.ex.Echo', interface.Method('Echo', arguments='sa{sv}', returns='s(is)'),
-                                    interface.Method('Words', arguments='sa{sv}', returns='as'),
-                                    interface.Method('Pair', arguments='sa{sv}', returns='(ss)'),
-                                    interface.Method('Table', arguments='sa{sv}', returns='a(si)'), noRegister=True)
-
-    other = interface.DBusInterface('org.ex.Other', interface.Method('Pair', arguments='sa{sv}', returns='(ss)'),
-                                    interface.Method('Words', arguments='sa{sv}', returns='as'), noRegister=True)
-
-    class Srv(objects.DBusObject):
-        # the same members are also declared on an interface listed FIRST: a call that names
-        # org.ex.Echo must still reach the org.ex.Echo implementation
-        dbusInterfaces = [other, iface]
-
-        @objects.dbusMethod('org.ex.Other', 'Pair')
-        def other_pair(self, s, extra):
-            log.append(('OTHER', s))
-            return ('other', 'x')
-
-        @objects.dbusMethod('org.ex.Other', 'Words')
-        def other_words(self, s, extra):
-            log.append(('OTHER', s))
-            return ['other']
-
-        def dbus_Echo(self, s, extra):
-            log.append((s, extra))
-            if s in raises:
-                if misfit(s):
-                    return BAD['Echo']
-                raise SrvError('boom:' + s)
-            return ['r:' + s, (len(extra), 'é' + s)]
-
-        @objects.dbusMethod('org.ex.Echo', 'Words')
-        def echo_words(self, s, extra):           # one array, holding exactly one element
-            log.append((s, extra))
-            if s in raises:
-                if misfit(s):
-                    return BAD['Words']
-                raise SrvError('boom:' + s)
-            return ['w:' + s]
-
-        def dbus_Table(self, s, extra):           # one value that is not a struct but holds structs
-            log.append((s, extra))
-            if s in raises:
-                if misfit(s):
-                    return BAD['Table']
-                raise SrvError('boom:' + s)
-            return [('t:' + s, 1), ('u', 2)]
-
-        @objects.dbusMethod('org.ex.Echo', 'Pair')
-        def echo_pair(self, s, extra):            # one struct
-            log.append((s, extra))
-            if s in raises:
-                if misfit(s):
-                    return BAD['Pair']
-                raise SrvError('boom:' + s)
-            return ('p:' + s, 'q')
-    return Srv('/obj'), iface
+    return Srv('/obj', raises, log), IFACE
 
 
 class E2EDriver:
